@@ -99,11 +99,15 @@ MayWrite(cs, r) == InSeq(r[2], MaskOf(cs.frame.dirty, r[1])) \/ ~InSeq(r[2], Mas
 (* Nothing but the destination slots may be written: every memory cell that is not an incoming stack argument must lie inside *)
 (* the slot [off, off + size of the destination type) of some stack destination (unwritten memory is unknown = poison, so a    *)
 (* partially written destination fails Final; a store that spills over a destination's end or lands elsewhere fails here).     *)
+SlotEnd(e, g) == ((e + g - 1) \div g) * g
 StrayStores(m, cs) ==
   LET spv == RegGet(m, "gp", cs.frame.sp)
       incoming == { <<"arg", cs.src[q].off>> : q \in { q \in 1..Len(cs.args) : cs.src[q].k = "stack" } }
       inDst(a, n) == \E q \in Wanted(cs) : cs.dst[q].k = "stack" /\ spv.t = "ptr" /\ a[1] = spv.x
-                                          /\ a[2] >= spv.lo + cs.dst[q].off /\ a[2] + n <= spv.lo + cs.dst[q].off + DstTy(cs, q).sz
+                                          /\ a[2] >= spv.lo + cs.dst[q].off
+                                          \* a store may fill the destination's stack slot up to the next register-size boundary (stack
+                                          \* slots are register-size granular; a 4-byte store for an int8 destination is not a stray store)
+                                          /\ a[2] + n <= spv.lo + SlotEnd(cs.dst[q].off + DstTy(cs, q).sz, cs.bits \div 8)
   IN { a \in DOMAIN m.mem : ~(a \in incoming /\ m.mem[a].v.t = "val" /\ m.mem[a].v.c = "" /\ m.mem[a].v.lo = m.mem[a].v.hi) /\ ~inDst(a, m.mem[a].sz) }
 
 SaOk(m, cs) == cs.sa = 255 \/ RegGet(m, "gp", cs.sa) = Ptr("arg", 0 - cs.frame.sa_sa)
@@ -172,7 +176,9 @@ Verdict ==
                  THEN <<cs.family, "final", "int-extension", d.k, how>> \o (IF s.k = "stack" THEN <<"from-stack">> ELSE <<>>)
             ELSE <<cs.family, "final", "plain-move", st.c, s.k, d.k>>
   ELSE IF AtEnd /\ StrayStores(m, cs) # {}
-       THEN LET q == CHOOSE q \in Wanted(cs) : cs.dst[q].k = "stack" IN <<cs.family, "store-outside-destination", SrcTy(cs, q).c>>
+       THEN LET ss == {q \in Wanted(cs) : cs.dst[q].k = "stack"}
+                cls == IF \E q \in ss : SrcTy(cs, q).c # "int" THEN (SrcTy(cs, CHOOSE q \in ss : SrcTy(cs, q).c # "int").c) ELSE "int"
+            IN <<cs.family, "store-outside-destination", cls>>
   ELSE IF AtEnd /\ ~SaOk(m, cs) THEN <<cs.family, "sa-register">>
   ELSE <<>>
 
